@@ -87,11 +87,14 @@ def ds_specs(which):
     S = D.spec([], [], [], vk="f", base=4, attrs={"const": [1]})
     T = D.spec(["y", "x"], [YL, x], ["O", kx], vk="f", base=5)
     U = D.spec(["y"], [YL], ["O"], vk="f", base=6, attrs={"u": 1})
+    if which == "narrow":     # float32 / int32 values: NumPy's promotion rules tell a NumPy scalar operand from a Python one
+        V, W, S = dict(V, vk="f4"), dict(W, vk="i4"), D.spec([], [], [], vk="i4", base=4)
+        return [("v", V), ("w", W), ("s", S)]
     return {"full": [("v", V), ("w", W), ("s", S), ("t", T)], "one": [("w", W)], "lack": [("v", V), ("u", U)],
             "float": [("v", V), ("w", W), ("u", U)], "nan": [("v", V), ("t", T), ("u", U)], "float2": [("t", T), ("s", S)]}[which]
 
 
-DSNAMES = ["full", "one", "lack", "float", "nan", "float2"]
+DSNAMES = ["full", "one", "lack", "float", "nan", "float2", "narrow"]
 
 
 def build_ds(which, shift=0, xlabels=None, ylabels=None):
@@ -197,6 +200,13 @@ def cases(sh, tier):
             for form in ("as", "sa"):
                 yield {"ds": w, "op": ["arith", opn, form, 2]}
                 yield {"ds": w, "op": ["arith", opn, form, 2.5]}
+                if w in ("narrow", "full"):
+                    # NumPy scalars as the other operand (on the left NumPy gets the first say: the Dataset has to make it defer)
+                    yield {"ds": w, "op": ["arith", opn, form, "np.float64:2.5"]}
+                    yield {"ds": w, "op": ["arith", opn, form, "np.int64:3"]}
+                    yield {"ds": w, "op": ["arith", opn, form, "np.float32:0.5"]}
+                    if opn == "add":
+                        yield {"ds": w, "op": ["arith", opn, form, "np.int64:1099511627776"]}
             for other in ("same", "shift", "xdiffer", "ydiffer", "fewer"):
                 yield {"ds": w, "op": ["arith", opn, "dd", other]}
         yield {"ds": w, "op": ["arith", "neg", "neg", None]}
@@ -238,6 +248,8 @@ def same_da(got, exp, what, rtol=1e-12):
                 return "{}: labels of {} are {} but the DimArray operation gives {}".format(what, ga.name, py(ga.values), py(ea.values))
         if not common.same_values(got.values, exp.values, rtol):
             return "{}: values {} but the DimArray operation gives {}".format(what, py(got.values), py(exp.values))
+        if got.values.dtype != exp.values.dtype:
+            return "{}: values of type {} but the DimArray operation gives {}".format(what, got.values.dtype, exp.values.dtype)
         # "exactly the result of the corresponding DimArray operation": the variable's and its axes' metadata as well
         if common.freeze(dict(got.attrs)) != common.freeze(dict(exp.attrs)):
             return "{}: variable metadata {} but the DimArray operation gives {}".format(what, dict(got.attrs), dict(exp.attrs))
@@ -394,6 +406,9 @@ def _judge(ds, case):
         touched = {d}
     elif op[0] == "arith":
         opn, form, other = op[1], op[2], op[3]
+        if isinstance(other, str) and other.startswith("np."):
+            tname, lit = other[3:].split(":")
+            other = getattr(np, tname)(float(lit) if "float" in tname else int(lit))
         if form == "neg":
             f = lambda: -ds
             for k in ds.keys():
